@@ -9,11 +9,14 @@
      LStart Started   Propose/Participate found Running = false, set it (MaybeStart) and runInstance started qbft.Run
      LStart Joined    Propose/Participate found Running = true: no second run (Propose waits for the first run's result)
      LStart Skipped   MaybeStart succeeded but runInstance's deadliner.Add refused the duty: no run
+     LRun             qbft.Run was entered for the duty (its round timer was asked for round 1): follows a Started, once
      LDecide          the subscribers were called (Decide callback of the live run; it cancels the run)
      LHandle true     handle accepted a message for the duty: getRecvBuffer creates the IO if absent (Running = false)
      LHandle false    handle rejected a message with "duty expired or exempt"
      LExpire          the deadliner reported the duty: deleteInstanceIO, and from now on Add refuses it
-   Theorem: along every run the subscribers are called at most once.  The reason is that Running is set at
+     LRefuse          the deadliner refuses the duty from now on without reporting it (exempt duty; or expired but not yet reported)
+   Theorems: along every run an instance is started (LStart Started, LRun) at most once per duty, never after the
+   deadliner refuses the duty, qbft.Run is entered only after a granted start, and the subscribers are called at most once.  The reason is that Running is set at
    most once while the IO lives, and the IO is only removed at expiry, after which no run starts.
    [step_mut] is the variant that also removes the IO when the run decides (seeded change C03-r3m2): there
    a replayed message re-creates a fresh IO and a late Propose starts a second run -- refuted. *)
@@ -21,10 +24,10 @@ From Coq Require Import List Bool Arith Lia.
 Import ListNotations.
 
 Inductive outcome := Started | Joined | Skipped.
-Inductive llabel := LStart (o : outcome) | LDecide | LHandle (ok : bool) | LExpire.
+Inductive llabel := LStart (o : outcome) | LRun | LDecide | LHandle (ok : bool) | LExpire | LRefuse.
 
-Record lstate := { io : option bool; active : bool; expired : bool }.
-Definition linit : lstate := {| io := None; active := false; expired := false |}.
+Record lstate := { io : option bool; pend : bool; active : bool; expired : bool }.
+Definition linit : lstate := {| io := None; pend := false; active := false; expired := false |}.
 
 Definition not_running (s : lstate) : bool := match io s with Some true => false | _ => true end.
 
@@ -32,16 +35,19 @@ Definition lstep_gen (del_on_decide : bool) (s : lstate) (l : llabel) : option l
   match l with
   | LHandle true =>
     if expired s then None
-    else Some {| io := match io s with None => Some false | x => x end; active := active s; expired := false |}
+    else Some {| io := match io s with None => Some false | x => x end; pend := pend s; active := active s; expired := false |}
   | LHandle false => if expired s then Some s else None
   | LStart Started =>
-    if negb (expired s) && not_running s then Some {| io := Some true; active := true; expired := false |} else None
+    if negb (expired s) && not_running s then Some {| io := Some true; pend := true; active := true; expired := false |} else None
   | LStart Skipped =>
-    if expired s && not_running s then Some {| io := Some true; active := active s; expired := true |} else None
+    (* MaybeStart succeeded, the deadliner refused: NOTHING is started *)
+    if expired s && not_running s then Some {| io := Some true; pend := pend s; active := active s; expired := true |} else None
   | LStart Joined => if not_running s then None else Some s
+  | LRun => if pend s then Some {| io := io s; pend := false; active := active s; expired := expired s |} else None
   | LDecide =>
-    if active s then Some {| io := if del_on_decide then None else io s; active := false; expired := expired s |} else None
-  | LExpire => Some {| io := None; active := active s; expired := true |}
+    if active s then Some {| io := if del_on_decide then None else io s; pend := pend s; active := false; expired := expired s |} else None
+  | LExpire => Some {| io := None; pend := pend s; active := active s; expired := true |}
+  | LRefuse => Some {| io := io s; pend := pend s; active := active s; expired := true |}
   end.
 
 Definition lstep := lstep_gen false.
@@ -61,93 +67,143 @@ Fixpoint lfirst_reject (s : lstate) (ls : list llabel) (i : nat) : option nat :=
   end.
 
 Definition is_decide (l : llabel) : bool := match l with LDecide => true | _ => false end.
-Definition decides (ls : list llabel) : nat := length (filter is_decide ls).
+Definition is_run (l : llabel) : bool := match l with LRun => true | _ => false end.
+Definition is_started (l : llabel) : bool := match l with LStart Started => true | _ => false end.
+Definition count (f : llabel -> bool) (ls : list llabel) : nat := length (filter f ls).
+Definition decides := count is_decide.
+Definition runs := count is_run.
+Definition starts := count is_started.
 
-(* the monitor: at most one Decide; no message accepted and no run started after expiry *)
+(* the monitor (labels only):
+     - at most one Decide, at most one granted start, at most one qbft.Run;
+     - qbft.Run is entered only after a granted start that has not been used yet (k starts, m runs so far);
+     - no message accepted and no start granted once the deadliner refuses the duty. *)
 Fixpoint after_expiry_ok (ls : list llabel) (exp : bool) : bool :=
   match ls with
   | [] => true
-  | LExpire :: r => after_expiry_ok r true
+  | LExpire :: r | LRefuse :: r => after_expiry_ok r true
   | LHandle true :: r => negb exp && after_expiry_ok r exp
   | LStart Started :: r => negb exp && after_expiry_ok r exp
   | _ :: r => after_expiry_ok r exp
   end.
-Definition lmonitor (ls : list llabel) : bool := (decides ls <=? 1) && after_expiry_ok ls false.
+
+Fixpoint runs_follow_starts (ls : list llabel) (k m : nat) : bool :=
+  match ls with
+  | [] => true
+  | LStart Started :: r => runs_follow_starts r (S k) m
+  | LRun :: r => (S m <=? k) && runs_follow_starts r k (S m)
+  | _ :: r => runs_follow_starts r k m
+  end.
+
+Definition lmonitor (ls : list llabel) : bool :=
+  (decides ls <=? 1) && (starts ls <=? 1) && (runs ls <=? 1) && runs_follow_starts ls 0 0 && after_expiry_ok ls false.
 
 Definition b2n (b : bool) : nat := if b then 1 else 0.
 
-(* n = Decides so far *)
-Definition linv (s : lstate) (n : nat) : Prop :=
-  n + b2n (active s) <= 1 /\ (n + b2n (active s) = 1 -> io s = Some true \/ expired s = true).
+(* k granted starts, m runs, n decides so far *)
+Definition linv (s : lstate) (k m n : nat) : Prop :=
+  k <= 1 /\ (k = 1 -> io s = Some true \/ expired s = true) /\ m + b2n (pend s) = k /\ n + b2n (active s) <= k.
 
-Lemma idle_zero : forall s n, linv s n -> expired s = false -> not_running s = true -> n + b2n (active s) = 0.
+Lemma idle_zero : forall s k m n, linv s k m n -> expired s = false -> not_running s = true -> k = 0.
 Proof.
-  intros s n [H1 H2] He Hn. destruct (Nat.eq_dec (n + b2n (active s)) 1) as [E|E]; [|lia].
+  intros s k m n (H1 & H2 & _) He Hn. destruct (Nat.eq_dec k 1) as [E|E]; [|lia].
   destruct (H2 E) as [X|X]; [|congruence]. unfold not_running in Hn. rewrite X in Hn. discriminate.
 Qed.
 
-Lemma lstep_inv : forall s l s' n, lstep s l = Some s' -> linv s n -> linv s' (n + b2n (is_decide l)).
+Lemma lstep_inv : forall s l s' k m n, lstep s l = Some s' -> linv s k m n ->
+  linv s' (k + b2n (is_started l)) (m + b2n (is_run l)) (n + b2n (is_decide l)).
 Proof.
-  intros s l s' n Hs Hi. pose proof Hi as [H1 H2]. unfold lstep, lstep_gen in Hs.
-  destruct l as [[| |]| |[|]|]; simpl in *; rewrite ?Nat.add_0_r.
+  intros s l s' k m n Hs Hi. pose proof Hi as (H1 & H2 & H3 & H4). unfold lstep, lstep_gen in Hs.
+  destruct l as [[| |]| | |[|]| |]; simpl in *; rewrite ?Nat.add_0_r.
   - destruct (expired s) eqn:He; simpl in Hs; [discriminate|]. destruct (not_running s) eqn:Hn; [|discriminate].
-    inversion Hs; subst. pose proof (idle_zero _ _ Hi He Hn) as Z. unfold linv; simpl. split; [lia|auto].
+    pose proof (idle_zero _ _ _ _ Hi He Hn) as Z. rewrite Z in *. inversion Hs; subst. unfold linv; simpl.
+    destruct (pend s); destruct (active s); simpl in *; try lia. repeat split; auto; lia.
   - destruct (not_running s); inversion Hs; subst. assumption.
   - destruct (expired s) eqn:He; simpl in Hs; [|discriminate]. destruct (not_running s); [|discriminate].
-    inversion Hs; subst. unfold linv; simpl. split; [assumption|auto].
-  - destruct (active s) eqn:Ha; [|discriminate]. inversion Hs; subst. unfold linv; simpl in *. split; [lia|].
-    intros _. apply H2. lia.
-  - destruct (expired s) eqn:He; [discriminate|]. inversion Hs; subst. unfold linv; simpl. split; [assumption|].
+    inversion Hs; subst. unfold linv; simpl. repeat split; auto.
+  - destruct (pend s) eqn:Hp; [|discriminate]. inversion Hs; subst. unfold linv; simpl in *. repeat split; auto; lia.
+  - destruct (active s) eqn:Ha; [|discriminate]. inversion Hs; subst. unfold linv; simpl in *. repeat split; auto; lia.
+  - destruct (expired s) eqn:He; [discriminate|]. inversion Hs; subst. unfold linv; simpl. repeat split; auto.
     intros E. destruct (H2 E) as [X|X]; [|congruence]. rewrite X. left; reflexivity.
   - destruct (expired s); inversion Hs; subst. assumption.
-  - inversion Hs; subst. unfold linv; simpl. split; [assumption|auto].
+  - inversion Hs; subst. unfold linv; simpl. repeat split; auto.
+  - inversion Hs; subst. unfold linv; simpl. repeat split; auto.
 Qed.
 
-Lemma lrun_inv : forall ls s s' n, lrun s ls = Some s' -> linv s n -> linv s' (n + decides ls).
+Lemma count_cons : forall f l r, count f (l :: r) = b2n (f l) + count f r.
+Proof. intros. unfold count. simpl. destruct (f l); reflexivity. Qed.
+
+Lemma lrun_inv : forall ls s s' k m n, lrun s ls = Some s' -> linv s k m n ->
+  linv s' (k + starts ls) (m + runs ls) (n + decides ls).
 Proof.
-  induction ls as [|l r IH]; intros s s' n Hr Hi; simpl in Hr.
-  - inversion Hr; subst. unfold decides; simpl. rewrite Nat.add_0_r. assumption.
+  induction ls as [|l r IH]; intros s s' k m n Hr Hi; simpl in Hr.
+  - inversion Hr; subst. unfold starts, runs, decides, count; simpl. rewrite !Nat.add_0_r. assumption.
   - unfold lrun in Hr. simpl in Hr. fold lstep in Hr. destruct (lstep s l) as [s1|] eqn:E; [|discriminate].
-    pose proof (IH _ _ _ Hr (lstep_inv _ _ _ _ E Hi)) as X.
-    replace (n + decides (l :: r)) with (n + b2n (is_decide l) + decides r); [assumption|].
-    unfold decides; simpl. destruct (is_decide l); simpl; lia.
+    pose proof (IH _ _ _ _ _ Hr (lstep_inv _ _ _ _ _ _ E Hi)) as X.
+    unfold starts, runs, decides in *. rewrite !count_cons, !Nat.add_assoc. assumption.
+Qed.
+
+Lemma linit_inv : linv linit 0 0 0.
+Proof. unfold linv; simpl. repeat split; auto; lia. Qed.
+
+Theorem started_at_most_once : forall ls s, lrun linit ls = Some s -> starts ls <= 1 /\ runs ls <= starts ls /\ decides ls <= starts ls.
+Proof.
+  intros ls s Hr. destruct (lrun_inv _ _ _ _ _ _ Hr linit_inv) as (H1 & _ & H3 & H4). simpl in *. lia.
 Qed.
 
 Theorem decide_at_most_once : forall ls s, lrun linit ls = Some s -> decides ls <= 1.
+Proof. intros ls s Hr. destruct (started_at_most_once _ _ Hr) as (A & B & C). lia. Qed.
+
+Lemma lrun_runs_follow : forall ls s s' k m n, lrun s ls = Some s' -> linv s k m n -> runs_follow_starts ls k m = true.
 Proof.
-  intros ls s Hr. assert (Hi : linv linit 0) by (split; simpl; [lia|discriminate]).
-  destruct (lrun_inv _ _ _ _ Hr Hi) as [H _]. simpl in H. lia.
+  induction ls as [|l r IH]; intros s s' k m n Hr Hi; [reflexivity|].
+  unfold lrun in Hr; simpl in Hr. fold lstep in Hr. destruct (lstep s l) as [s1|] eqn:E; [|discriminate].
+  pose proof (lstep_inv _ _ _ _ _ _ E Hi) as Hi'. specialize (IH _ _ _ _ _ Hr Hi').
+  destruct l as [[| |]| | |[|]| |]; cbn [runs_follow_starts is_started is_run is_decide b2n] in *;
+    rewrite ?Nat.add_0_r in IH; try assumption.
+  - replace (S k) with (k + 1) by lia. assumption.
+  - replace (S m) with (m + 1) by lia. rewrite IH, andb_true_r.
+    destruct Hi' as (_ & _ & H3 & _). rewrite Nat.add_0_r in H3. apply Nat.leb_le. lia.
 Qed.
 
-(* no message is accepted and no run starts after expiry *)
+(* no message is accepted and no start is granted once the deadliner refuses the duty *)
 Lemma lrun_after_expiry : forall ls s s', lrun s ls = Some s' -> after_expiry_ok ls (expired s) = true.
 Proof.
   induction ls as [|l r IH]; intros s s' Hr; [reflexivity|].
   unfold lrun in Hr; simpl in Hr. fold lstep in Hr. destruct (lstep s l) as [s1|] eqn:E; [|discriminate].
   specialize (IH _ _ Hr). unfold lstep, lstep_gen in E.
-  destruct l as [[| |]| |[|]|]; simpl in *.
+  destruct l as [[| |]| | |[|]| |]; simpl in *.
   - destruct (expired s) eqn:He; simpl in E; [discriminate|]. destruct (not_running s); inversion E; subst; simpl in *. assumption.
   - destruct (not_running s); inversion E; subst; assumption.
   - destruct (expired s) eqn:He; simpl in E; [|discriminate]. destruct (not_running s); inversion E; subst; simpl in *; assumption.
+  - destruct (pend s); inversion E; subst; simpl in *; assumption.
   - destruct (active s); inversion E; subst; simpl in *; assumption.
   - destruct (expired s) eqn:He; [discriminate|]. inversion E; subst; simpl in *. assumption.
   - destruct (expired s) eqn:He; inversion E; subst. rewrite He in IH. assumption.
+  - inversion E; subst; simpl in *. assumption.
   - inversion E; subst; simpl in *. assumption.
 Qed.
 
 Theorem lrun_monitor : forall ls s, lrun linit ls = Some s -> lmonitor ls = true.
 Proof.
-  intros ls s Hr. unfold lmonitor. apply andb_true_intro. split.
-  - apply Nat.leb_le. eapply decide_at_most_once; eauto.
+  intros ls s Hr. unfold lmonitor. destruct (started_at_most_once _ _ Hr) as (A & B & C).
+  repeat (apply andb_true_intro; split); try (apply Nat.leb_le; lia).
+  - eapply lrun_runs_follow; [exact Hr|exact linit_inv].
   - apply (lrun_after_expiry _ _ _ Hr).
 Qed.
 
 (* seeded change C03-r3m2 at model level: removing the IO on decide admits a second run and a second Decide *)
-Definition mut_trace : list llabel := [LStart Started; LHandle true; LDecide; LHandle true; LStart Started; LDecide].
+Definition mut_trace : list llabel := [LStart Started; LRun; LHandle true; LDecide; LHandle true; LStart Started; LRun; LDecide].
 Lemma delete_on_decide_refuted :
   (exists s, lrun_gen true linit mut_trace = Some s) /\ decides mut_trace = 2 /\ lrun linit mut_trace = None.
 Proof. split; [eexists; reflexivity|split; reflexivity]. Qed.
 
+(* seeded change C02-r6m2: a run entered after the deadliner refused the duty (late Propose after expiry) is no run of the model *)
+Definition late_trace : list llabel := [LStart Started; LRun; LDecide; LExpire; LHandle false; LStart Skipped; LRun].
+Lemma run_after_expiry_refuted : lrun linit late_trace = None /\ lmonitor late_trace = false /\
+  exists s, lrun linit [LStart Started; LRun; LDecide; LExpire; LHandle false; LStart Skipped] = Some s.
+Proof. split; [reflexivity|split; [reflexivity|eexists; reflexivity]]. Qed.
+
 Example life_nonvacuous :
-  exists s, lrun linit [LHandle true; LStart Started; LHandle true; LDecide; LHandle true; LStart Joined; LExpire; LHandle false; LStart Skipped; LStart Joined] = Some s.
+  exists s, lrun linit [LHandle true; LStart Started; LRun; LHandle true; LDecide; LHandle true; LStart Joined; LExpire; LHandle false; LStart Skipped; LStart Joined] = Some s.
 Proof. eexists; reflexivity. Qed.
